@@ -2152,6 +2152,9 @@ func (r *Repository) createNewObjectPack(cfg *RepackConfig) (h plumbing.Hash, er
 	if err != nil {
 		return h, err
 	}
+	if err = ow.walkIndex(); err != nil {
+		return h, err
+	}
 	// Only objects that are actually present can be written out. In a partial
 	// clone the walk reaches objects the promisor remote withheld, and asking
 	// the encoder for those fails with "object not found".
